@@ -196,6 +196,12 @@ def value_is_rlp_of(an, term, argidx):
     if cur.k == "call" and cur.a[0].fn == "alloy_rlp::encode" and cur.a[1]:
         ty = cur.a[0].targs[0]["s"] if cur.a[0].targs else "?"
         return {"kind": "rlp", "value": strip(cur.a[1][0]), "ty": ty, "site": None}
+    # a choice between encoder outputs (one per path) is an encoder output
+    if cur.k == "phi" and cur.a[0] and all(strip(a).k == "call" and strip(a).a[0].fn == "alloy_rlp::encode" and strip(a).a[1] for a in cur.a[0]):
+        alts = [strip(a) for a in cur.a[0]]
+        tys = {(a.a[0].targs[0]["s"] if a.a[0].targs else "?") for a in alts}
+        vals = [strip(a.a[1][0]) for a in alts]
+        return {"kind": "rlp", "value": vals[0] if len(vals) == 1 else E("phi", vals), "ty": tys.pop() if len(tys) == 1 else "mixed:" + "|".join(sorted(tys)), "site": None}
     if cur.k == "param":
         return {"kind": "param", "idx": cur.a[0], "expr": cur}
     return {"kind": "unknown", "expr": e}
